@@ -30,6 +30,10 @@ pub struct Case {
     /// answers of the prior downlinks still waiting for their uplink
     #[serde(default)]
     pub class_c_idle: bool,
+    /// an uplink on FPort 0 (the application sends no data: the answers travel as FRMPayload) goes out between the
+    /// uplink that carries the answers first and the one in which the repeated answers are looked for
+    #[serde(default)]
+    pub port0_uplink_between: bool,
 }
 
 pub enum Dev {
@@ -317,6 +321,11 @@ pub fn eval(c: &Case) -> Vec<(String, String)> {
     }
     // ---- sticky vs one-shot answers
     let sticky: Vec<(u8, Vec<u8>)> = observed.iter().filter(|(c, _)| STICKY.contains(c)).cloned().collect();
+    if c.port0_uplink_between {
+        if let Some(p) = dev.apply_ev(&Ev::Cycle { confirmed: false, port: 0, len: 0, rx1: None, rx2: None }) {
+            return vec![(format!("C08|{front}|panic|{}", panic_site(&p)), format!("{p}; FPort 0 uplink after {}", hex(&c.cmd.bytes)))];
+        }
+    }
     let u2 = dev.cycle(None, vec![]);
     if let Some(b) = u2.tx
         && let Ok(a2) = uplink_answers(&b)
@@ -436,6 +445,7 @@ pub fn run(tier: Tier, replay: Option<&str>) {
                         port0,
                         class_c_delivery: cc,
                         class_c_idle: false,
+                        port0_uplink_between: false,
                     };
                     for (i, c) in singles.iter().chain(blocks.iter()).enumerate() {
                         if reduce && i % 23 != 0 {
@@ -446,6 +456,10 @@ pub fn run(tier: Tier, replay: Option<&str>) {
                         }
                         if base == "fresh" {
                             cases.push(mk(vec![], c, true, false));
+                        }
+                        // requests whose answers are repeated: also with an FPort 0 uplink before the repeat
+                        if base == "fresh" && c.bytes.len() <= 15 && matches!(c.bytes.first(), Some(0x05 | 0x08 | 0x0A)) {
+                            cases.push(Case { port0_uplink_between: true, ..mk(vec![], c, false, false) });
                         }
                     }
                     if base == "fresh" && !biased && !otaa {
@@ -532,11 +546,11 @@ pub fn run(tier: Tier, replay: Option<&str>) {
             .flat_map(|(_, c)| {
                 let mut v = vec![];
                 for prior in [vec![], vec![vec![0x08u8, 0x02]]] {
-                    v.push(Case { front: "async-c".into(), dev: dev.clone(), base: "fresh".into(), prior, cmd: c.clone(), port0: false, class_c_delivery: true, class_c_idle: false });
+                    v.push(Case { front: "async-c".into(), dev: dev.clone(), base: "fresh".into(), prior, cmd: c.clone(), port0: false, class_c_delivery: true, class_c_idle: false, port0_uplink_between: false });
                 }
                 // heard while idle, with one-shot and sticky answers of the preceding Class A downlink still unsent
                 for prior in [vec![vec![0x06u8]], vec![cmds::link_adr(15, 15, 0x00FF, 6, 1, false).bytes], vec![vec![0x08u8, 0x02, 0x06]]] {
-                    v.push(Case { front: "async-c".into(), dev: dev.clone(), base: "fresh".into(), prior, cmd: c.clone(), port0: false, class_c_delivery: true, class_c_idle: true });
+                    v.push(Case { front: "async-c".into(), dev: dev.clone(), base: "fresh".into(), prior, cmd: c.clone(), port0: false, class_c_delivery: true, class_c_idle: true, port0_uplink_between: false });
                 }
                 v
             })
@@ -557,7 +571,7 @@ pub fn run(tier: Tier, replay: Option<&str>) {
         "samples": samples,
         "evaluations": ctx.evals(),
         "distinct_nontrivial": nontrivial.load(Ordering::Relaxed),
-        "rule": "each case is a history on a fresh real device: base state (fresh / CFList join / sparse mask / extra channels / high data rate), 0-2 prior command downlinks, the judged downlink (FOpts or port 0), then uplinks and an acknowledging downlink. Judged downlinks: the full value domain of LinkADRReq (DR x TXPower x ChMaskCntl x mask patterns x NbTrans x RFU bit), LinkADRReq blocks, RXParamSetupReq (all 256 DLSettings x frequency set), RXTimingSetupReq (all 256), NewChannelReq (index x frequency set x DrRange bytes), DlChannelReq, DevStatusReq; k x DevStatusReq followed by two further requests (answer budget at every position); Class C deliveries (between TX and RX1, and while idle in rxc_listen with the answers of the preceding Class A downlink still unsent); port-0 requests in sessions whose downlink counter is beyond 16 bits. non-trivial = judged stream contains at least one request",
+        "rule": "each case is a history on a fresh real device: base state (fresh / CFList join / sparse mask / extra channels / high data rate), 0-2 prior command downlinks, the judged downlink (FOpts or port 0), then uplinks and an acknowledging downlink. Judged downlinks: the full value domain of LinkADRReq (DR x TXPower x ChMaskCntl x mask patterns x NbTrans x RFU bit), LinkADRReq blocks, RXParamSetupReq (all 256 DLSettings x frequency set), RXTimingSetupReq (all 256), NewChannelReq (index x frequency set x DrRange bytes), DlChannelReq, DevStatusReq (requests with repeated answers also with an FPort 0 uplink before the repeat); k x DevStatusReq followed by two further requests (answer budget at every position); Class C deliveries (between TX and RX1, and while idle in rxc_listen with the answers of the preceding Class A downlink still unsent); port-0 requests in sessions whose downlink counter is beyond 16 bits. non-trivial = judged stream contains at least one request",
         "regions": regions,
         "exhaustive": true,
     });
